@@ -3,6 +3,7 @@ package main
 // callrules ("every call from these callers to these callees requires ...") and frame scans.
 
 import (
+	"math/big"
 	"fmt"
 	"go/token"
 	"go/types"
@@ -374,6 +375,14 @@ func (c *Ctx) initGhostFields(st *State, ref string, elem types.Type) {
 		if pt != n.Obj().Name() {
 			continue
 		}
+		// the parameter type must be this very type, not a type of the same name elsewhere
+		if gt := c.resolveType(strings.TrimPrefix(g.Params[0].Type, "*"), &Env{c: c, pkgPath: fnPkgPath(c.fn)}); gt != nil && !types.Identical(gt, elem) {
+			continue
+		} else if gt == nil {
+			if q := strings.TrimPrefix(g.Params[0].Type, "*"); strings.Contains(q, ".") && n.Obj().Pkg() != nil && !strings.HasPrefix(q, n.Obj().Pkg().Name()+".") {
+				continue
+			}
+		}
 		rt := c.resolveType(g.Ret, &Env{c: c, pkgPath: fnPkgPath(c.fn)})
 		if rt == nil {
 			continue
@@ -381,6 +390,10 @@ func (c *Ctx) initGhostFields(st *State, ref string, elem types.Type) {
 		name := "G|" + g.Name
 		sort := c.ghostMapSort(g)
 		c.registerMap(name, sort)
-		st.over[name] = c.define("gz", sort, "(store "+c.lookup(st, name)+" "+ref+" "+c.zeroVal(rt).S+")")
+		zero := c.zeroVal(rt).S
+		if _, isW := rt.(*wideType); isW {
+			zero = c.intConst(big.NewInt(0), rt)
+		}
+		st.over[name] = c.define("gz", sort, "(store "+c.lookup(st, name)+" "+ref+" "+zero+")")
 	}
 }
